@@ -221,6 +221,46 @@ def lost_split_dir(exe, root, seed, stats):
     a.destroy()
     return [(problem + ' seed=%d' % seed, problem + '\n' + hist)] if problem else None
 
+def empty_middle_split(exe, root, seed, stats):
+    """a split in the MIDDLE that has no room for a single block (its limit is below the block size) while a later split holds
+    parity: recorded sizes like 1024/0/1024.  Everything a one-file parity allows must still work: a second sync of changed
+    files, check, fix of a lost file"""
+    rng = e2e.Rng(seed)
+    # --test-parity-limit=L gives split s of level 0 the limit L + (123562341 + s*634542351) % 2^32 % L: search an L (below two
+    # blocks) for which some middle split gets < 1 block and its neighbours >= 1 block
+    bs = 1024
+    def lim(L, sidx): return L + (123562341 + sidx * 634542351) % (1 << 32) % L
+    cands = [L for L in range(520, 1000) if lim(L, 0) >= bs and lim(L, 1) < bs and lim(L, 2) >= bs]
+    if not cands: return None
+    L = rng.choice(cands)
+    a = e2e.Arr(root, exe, ndisks=2, nparity=1, ncontent=1, splits=3)
+    s = sim.Sim(a, rng.fork(), weird_names=False)
+    cap = lim(L, 0) // bs + lim(L, 2) // bs          # blocks that fit in splits 0 and 2
+    a.write('d1', 'x', rng.bytes(bs * cap - rng.below(100)), s.tick())
+    a.write('d2', 'y', rng.bytes(bs * max(1, cap - 1)), s.tick())
+    la = ['--test-parity-limit=%d' % L]
+    if s.sync(*la).rc != 0:
+        a.destroy(); return None
+    sizes = [os.path.getsize(pf) if os.path.exists(pf) else 0 for pf in a.parity_files(0)]
+    stats['empty_middle'] = stats.get('empty_middle', 0) + 1
+    problem = None
+    cfg = 'empty-middle-split limit=%d split sizes after the first sync %s seed=%d' % (L, sizes, seed)
+    with open(a.path('d2', 'y'), 'r+b') as f: f.write(rng.bytes(200))
+    t = s.tick(); os.utime(a.path('d2', 'y'), ns=(t, t)); s.log('d2/y rewritten in place')
+    r2 = s.run('sync', '--force-empty', '--force-zero', *la)
+    if r2.rc != 0:
+        problem = '[empty-middle-split] the second sync is refused or fails (exit %d): %s' % (r2.rc, r2.out[-200:].replace('\n', ' '))
+    else:
+        c = a.cmd('check', *la)
+        if c.rc != 0: problem = '[empty-middle-split] check fails after the second sync (exit %d)' % c.rc
+        else:
+            snap = a.snapshot(); os.unlink(a.path('d1', 'x'))
+            f = a.cmd('fix', *la)
+            if fx.compare_snapshot(a, snap): problem = '[empty-middle-split] a lost file is not rebuilt (fix exit %d)' % f.rc
+    hist = '\n'.join(s.history)
+    a.destroy()
+    return [('%s; %s' % (problem, cfg), problem + '\n' + cfg + '\n' + hist)] if problem else None
+
 def main(tier, seed):
     chk = vlib.Check('C17', 'proof', tier, seed)
     chk.assumptions = ['file system abstracted as "growing a split to t bytes succeeds iff t <= limit" (exactly what --test-parity-limit simulates)',
@@ -239,12 +279,14 @@ def main(tier, seed):
         chk.violation('build of /repo failed: ' + str(e)[:300], str(e), False, 'build'); chk.finish()
     nl, nt = (120, 32) if tier == 'quick' else (1500, 300)
     stats = {'chsize': 0, 'ok': 0, 'fail': 0, 'compares': 0, 'fixes': 0}
-    jobs = [('leaf', i) for i in range(nl)] + [('twin', i) for i in range(nt)] + [('lsd', i) for i in range(16 if tier == 'quick' else 160)]
+    jobs = [('leaf', i) for i in range(nl)] + [('twin', i) for i in range(nt)] + [('lsd', i) for i in range(16 if tier == 'quick' else 160)] + [('ems', i) for i in range(4 if tier == 'quick' else 40)]
     def job(j):
         kind, i = j
         root = os.path.join(vlib.scratch(), '%s%d' % (kind, i))
         if kind == 'leaf':
             return leaf_split(leaf, root, seed * 100000 + 80000 + i, stats)
+        if kind == 'ems':
+            return empty_middle_split(exe, root, seed * 100000 + 97000 + i, stats)
         if kind == 'lsd':
             return lost_split_dir(exe, root, seed * 100000 + 95000 + i, stats)
         return twin(exe, root, seed * 100000 + 90000 + i, stats)
